@@ -414,9 +414,14 @@ impl SubRule {
     }
 
     fn match_opt_states(&self, opt_states: &[Item], word: &Word, pos: &mut SegPos, forwards: bool) -> Result<bool, RuleRuntimeError> {
+        // a before-context is read right to left over the reversed word: so are the elements inside its optionals
+        let mut opt_states = opt_states.to_vec();
+        if !forwards {
+            opt_states.reverse();
+        }
         let mut si = 0;
         while si < opt_states.len() {
-            if !self.context_match(opt_states, &mut si, word, pos, forwards, false)? {
+            if !self.context_match(&opt_states, &mut si, word, pos, forwards, false)? {
                 return Ok(false)
             }
             si += 1;
